@@ -188,7 +188,7 @@ def run_property(prop, tier, seed, proof, families, mon_keys, san_kinds, nontriv
     ends = collections.Counter()
     viol, div = [], []
     with concurrent.futures.ThreadPoolExecutor(max_workers=common.NCPU) as ex:
-        for r in ex.map(lambda c: run_case(*c), cases):
+        for r in common.bounded_map(ex, lambda c: run_case(*c), cases):
             res.evaluations += 1
             ends[r.end] += 1
             for k, v in r.cov.items():
@@ -252,7 +252,7 @@ def search_property(prop, tier, seed, families, mon_keys, san_kinds, n=400, gen_
             s = (seed + 7) * 100000 + 50000 + i
             cases.append((f"search-{fam}-{s}", loopgen.scenario(s, family=fam, **(gen_kw or {}))))
     with concurrent.futures.ThreadPoolExecutor(max_workers=common.NCPU) as ex:
-        for r in ex.map(lambda c: run_case(*c), cases):
+        for r in common.bounded_map(ex, lambda c: run_case(*c), cases):
             res.evaluations += 1
             f = failing(r, prop, mon_keys, san_kinds)
             if f and not res.impl_violations:
